@@ -27,6 +27,7 @@ verus! {
 //@include spec/evalctx.rs
 //@include spec/known.rs
 //@include spec/sem_laws.rs
+broadcast use iset_laws::lemma_iset_intersect_comm, iset_laws::lemma_iset_union_comm;
 //@fmtfns
 
 // ---------------- operators (proved in unit ops; assumed here with the same contract text)
